@@ -44,6 +44,17 @@ def handle (ws : List String) : String :=
             | none => .error }
       let resps := (processAll reg (ts.map (·.req))).foldr insertResp []
       if resps.isEmpty then "-" else joinSp (resps.map showResp)
+  | ["asked", sess, xid] =>
+    -- sessions to several coordinators are open; a commit request arrives on session `sess` for a branch whose
+    -- manager answers with a status: on which session does the reply go out?
+    match sess.toNat? with
+    | none => "bad-op"
+    | some n =>
+      let r : Request := { kind := .commit, msgId := 1, xid := xid, branchId := 9, branchType := 1, resource := "res0", session := n }
+      let reg : Registry := { has := fun _ => true, answer := fun _ _ => .status 0 }
+      match process reg r with
+      | [resp] => if resp.session == n then "answered-on=asker" else "answered-on=other"
+      | _ => "answered-on=none"
   | _ => "bad-op"
 
 end Seata.Driver.C15
